@@ -6,8 +6,9 @@ import sys, json, os, shutil, subprocess, re
 pid, k, result = sys.argv[1], sys.argv[2], sys.argv[3]
 srcroot = sys.argv[4] if len(sys.argv) > 4 else '/tmp/seedout'
 dstk = sys.argv[5] if len(sys.argv) > 5 else k
+dstpid = sys.argv[6] if len(sys.argv) > 6 else pid
 src = f'{srcroot}/{pid}/{k}'
-dst = f'/verif/seeded/{pid}-{dstk}'
+dst = f'/verif/seeded/{dstpid}-{dstk}'
 os.makedirs(dst, exist_ok=True)
 for f in os.listdir(src):
     if f.endswith('.diff') or f.endswith('_test.go') or f == 'meta.json':
@@ -20,9 +21,12 @@ finally:
     subprocess.run(['git', '-C', '/repo', 'checkout', '--', '.'], check=True)
 caught = sorted(set(re.findall(r'^  (?:VIOLATION|UNDECIDED|FLOOR): (C\d+\.R\d+) key=(.*?) at ', out, re.M)))
 m = json.load(open(os.path.join(dst, 'meta.json')))
-m['breaks_property'] = pid
+m['breaks_property'] = dstpid
+if dstpid != pid:
+    m['seeded_for'] = pid
+    m['note'] = 'produced by an agent given property %s; it only manifests across a crash/restart, which %s does not quantify over, so it is filed under %s, whose statement it falsifies' % (pid, pid, dstpid)
 m['confirmed'] = {'how': 'verify_seed.sh in a scratch worktree: build with the change; demo test with the change (must fail); listed existing test packages with the change (must pass; known flaky tests TestByzantinePrevoteEquivocation / psql sink noted); demo on pristine tree (must pass)', 'result': result}
 m['reported_by'] = [{'rule': r, 'construct': key} for r, key in caught]
-m['reported_by_own_property_check'] = any(r.startswith(pid + '.') for r, _ in caught)
+m['reported_by_own_property_check'] = any(r.startswith(dstpid + '.') for r, _ in caught)
 json.dump(m, open(os.path.join(dst, 'meta.json'), 'w'), indent=1)
-print(pid, k, 'caught by', sorted(set(r for r, _ in caught)) or 'NOTHING', '| own property:', m['reported_by_own_property_check'])
+print(dstpid, dstk, 'caught by', sorted(set(r for r, _ in caught)) or 'NOTHING', '| own property:', m['reported_by_own_property_check'])
